@@ -90,7 +90,8 @@ InterpreterEnv::InterpreterEnv(std::vector<valtype>& stack_in, const CScript& sc
 
     operational = true;
     set_error(serror, SCRIPT_ERR_UNKNOWN_ERROR);
-    if (script.size() > MAX_SCRIPT_SIZE) {
+    // BIP342: the script size limit only applies to legacy and witness v0 scripts
+    if ((sigversion == SigVersion::BASE || sigversion == SigVersion::WITNESS_V0) && script.size() > MAX_SCRIPT_SIZE) {
         set_error(serror, SCRIPT_ERR_SCRIPT_SIZE);
         operational = false;
         return;
